@@ -141,26 +141,31 @@ Proof.
 Qed.
 
 (* ---------- 8-bit PackBits loop: every iteration consumes at least one byte of the stream ---------- *)
-Lemma put_run8_not_oof n : forall data x y w width pw v, put_run8 n data x y w width pw v <> OutOfFuel.
+Lemma put_run8_not_oof n : forall data x y w iw width pw v, put_run8 n data x y w iw width pw v <> OutOfFuel.
 Proof.
   induction n as [|n IH]; intros; cbn [put_run8]; [discriminate|].
-  destruct (_ >=? _); [discriminate|]. unfold set_idx, of_option.
+  destruct (_ >=? _); [discriminate|]. destruct (x <? iw); cbn [bind]; [|apply IH]. unfold set_idx, of_option.
   destruct (_ || _); cbn [bind]; [discriminate|].
   match goal with |- context[match ?x with Some _ => _ | None => _ end] => destruct x end; cbn [bind]; [apply IH|discriminate].
 Qed.
-Lemma put_lit8_spec n : forall f data x y w width pw idx,
-  match put_lit8 n f data x y w width pw idx with Ok (_, _, i') => idx <= i' | Err _ => True | OutOfFuel => False end.
+Lemma put_lit8_spec n : forall f data x y w iw width pw idx,
+  match put_lit8 n f data x y w iw width pw idx with Ok (_, _, i') => idx <= i' | Err _ => True | OutOfFuel => False end.
 Proof.
   induction n as [|n IH]; intros; cbn [put_lit8]; [lia|].
-  destruct (_ >=? _); [lia|]. unfold get_idx, of_option. destruct (index f idx); cbn [bind]; [|exact I].
+  destruct (_ >=? _); [lia|].
+  assert (K : forall a, match (if idx + 1 >? zlen f then Ok (a, x + 1, idx + 1) else put_lit8 n f a (x + 1) y w iw width pw (idx + 1)) with
+                        | Ok (_, _, i') => idx <= i' | Err _ => True | OutOfFuel => False end).
+  { intros a. destruct (_ >? _); [lia|].
+    specialize (IH f a (x + 1) y w iw width pw (idx + 1)). destruct (put_lit8 n f a (x + 1) y w iw width pw (idx + 1)) as [[[? ?] ?]| |]; auto. lia. }
+  destruct (x <? iw); cbn [bind]; [|apply K].
+  unfold get_idx, of_option. destruct (index f idx); cbn [bind]; [|exact I].
   unfold set_idx. destruct (_ || _); cbn [bind]; [exact I|].
   destruct (set_nth data _ b) as [a|]; cbn [of_option bind]; [|exact I].
-  destruct (_ >? _); [lia|].
-  specialize (IH f a (x + 1) y w width pw (idx + 1)). destruct (put_lit8 n f a (x + 1) y w width pw (idx + 1)) as [[[? ?] ?]| |]; auto. lia.
+  apply K.
 Qed.
 
-Lemma loop8_not_oof f w width pw : forall fuel s, 0 <= s_idx s -> (Z.to_nat (zlen f - s_idx s) < fuel)%nat ->
-  loop8 fuel f s w width pw <> OutOfFuel.
+Lemma loop8_not_oof f w iw width pw : forall fuel s, 0 <= s_idx s -> (Z.to_nat (zlen f - s_idx s) < fuel)%nat ->
+  loop8 fuel f s w iw width pw <> OutOfFuel.
 Proof.
   induction fuel as [|k IH]; intros s Hi Hf; [lia|]. cbn [loop8].
   destruct (Z.ltb_spec (s_idx s) (zlen f)); cbn [andb]; [|discriminate].
@@ -169,14 +174,14 @@ Proof.
   destruct (negb _).
   - destruct (_ >=? _); [discriminate|].
     unfold get_idx at 1, of_option. destruct (index f (s_idx s + 1)); cbn [bind]; [|discriminate].
-    pose proof (put_run8_not_oof (Z.to_nat (257 - u8 b)) (s_data s) (s_x s) (s_y s) w width pw b0) as R.
-    destruct (put_run8 _ _ _ _ _ _ _ _) as [[data x]| |]; cbn [bind]; [|discriminate|contradiction].
+    pose proof (put_run8_not_oof (Z.to_nat (257 - u8 b)) (s_data s) (s_x s) (s_y s) w iw width pw b0) as R.
+    destruct (put_run8 _ _ _ _ _ _ _ _ _) as [[data x]| |]; cbn [bind]; [|discriminate|contradiction].
     destruct (_ >=? _).
     + destruct (_ <? 0); [discriminate|]. apply IH; cbn [s_idx]; lia.
     + apply IH; cbn [s_idx]; lia.
   - destruct (_ >? _); [discriminate|].
-    pose proof (put_lit8_spec (Z.to_nat (u8 b + 1)) f (s_data s) (s_x s) (s_y s) w width pw (s_idx s + 1)) as L.
-    destruct (put_lit8 _ _ _ _ _ _ _ _ _) as [[[data x] idx']| |]; cbn [bind]; [|discriminate|contradiction].
+    pose proof (put_lit8_spec (Z.to_nat (u8 b + 1)) f (s_data s) (s_x s) (s_y s) w iw width pw (s_idx s + 1)) as L.
+    destruct (put_lit8 _ _ _ _ _ _ _ _ _ _) as [[[data x] idx']| |]; cbn [bind]; [|discriminate|contradiction].
     destruct (_ >=? _).
     + destruct (_ <? 0); [discriminate|]. apply IH; cbn [s_idx]; lia.
     + apply IH; cbn [s_idx]; lia.
@@ -185,9 +190,9 @@ Qed.
 Theorem compressed8_terminates f w0 h pw ph width : decode_compressed8 f w0 h pw ph width <> OutOfFuel.
 Proof.
   unfold decode_compressed8, bytearray. destruct (_ <? 0); cbn [bind]; [discriminate|].
-  pose proof (loop8_not_oof f (w0 - pw + (w0 - pw) mod 2) width pw (S (length f))
+  pose proof (loop8_not_oof f (w0 - pw + (w0 - pw) mod 2) (w0 - pw) width pw (S (length f))
                (Build_st (zeros (Z.to_nat ((if w0 - pw + (w0 - pw) mod 2 + pw >? width then width + 4 else width) * h))) 0 (h - 1 - ph) 0)) as L.
   cbn [s_idx] in L. specialize (L ltac:(lia)). pose proof (zlen_nonneg f) as Hn.
   specialize (L ltac:(unfold zlen in *; lia)).
-  destruct (loop8 _ _ _ _ _ _); cbn [bind]; [discriminate|discriminate|contradiction].
+  destruct (loop8 _ _ _ _ _ _ _); cbn [bind]; [discriminate|discriminate|contradiction].
 Qed.
